@@ -85,6 +85,15 @@ inline Scenario make_scenario(vh::Rng& g, int what, int iterations, bool allow_t
             cell_type_parameters doomed = base_type(0, g, V0); doomed.name_ = "doomed_epithelial"; doomed.min_vol_ = V0 * 0.97; doomed.avg_growth_rate_ = -0.5 * V0 / (iterations * s.P.time_step_); doomed.bulk_modulus_ *= 4; s.types.push_back(doomed); int td = (int)s.types.size() - 1;
             int n = g.range(3, 5); int doomed_pos = g.range(0, n - 1);
             for (int i = 0; i < n; i++) s.cells.push_back({sphere(r, i * (2 * r + 3e-6), 0, 0, g), i == doomed_pos ? td : t0}); break; }
+        case 8: { s.family = "degenerate_face_in_contact"; s.P.enable_edge_swap_operation_ = false;
+            s.P.min_edge_len_ = 0.85e-6;   // band [0.85, 2.55] um holds every edge of the cubes (0.875, 1.75, 2.47 um): the meshes are not refined at first
+            // three cubes in a row, gaps within the cut-offs; the first carries a used triangle of exactly zero area (a T-junction closed by a
+            // needle whose apex is the exact midpoint of an edge), the middle one comes last in the list so that its last faces touch a neighbour
+            int t = add_type(0); const double side = 7e-6; const int n = 4;
+            auto tsplit = [&](gen::TriMesh m) { auto tr = m.T[7]; unsigned a = tr[0], b = tr[1], c = tr[2]; unsigned e = (unsigned)m.P.size(); m.P.push_back({0.5 * (m.P[a][0] + m.P[b][0]), 0.5 * (m.P[a][1] + m.P[b][1]), 0.5 * (m.P[a][2] + m.P[b][2])});
+                // the neighbour across ab keeps the edge ab through the needle (a,b,e); (a,b,c) becomes (a,e,c) + (e,b,c)
+                m.T[7] = {a, e, c}; m.T.push_back({e, b, c}); m.T.push_back({a, b, e}); return m; };
+            s.cells.push_back({tsplit(cube(side, 0, 0, 0, n)), t}); s.cells.push_back({cube(side, 2 * (side + gap), 0, 0, n), t}); s.cells.push_back({cube(side, side + gap, 0, 0, n), t}); break; }
         default: { s.family = "polygonal_cubes_triangulated"; s.P.perform_initial_triangulation_ = allow_triangulation; int t = add_type(0); if (g.coin()) dividing(s.types[t], iterations * 0.5); double side = 7e-6; int n = g.range(1, 2);
             for (int i = 0; i < n; i++) { CellSpec c{cube(side, i * (side + gap), 0, 0, allow_triangulation ? 1 : 5), t}; c.polygonal_quads = allow_triangulation; s.cells.push_back(c); } break; }
     }
